@@ -295,10 +295,12 @@ def make_eq(L, case, rng, *, deterministic=False):
     return L[cls](RATE, noise=ns["noise"], noise_interpretation=interp, rng=rng)
 
 
-def oracle(np, u0, V, a, var_of, alpha, solver, dt, xis, *, implicit_drift=False):
+def oracle(np, u0, V, a, var_of, alpha, solver, dt, xis, *, implicit_drift=False, ret_scale=False):
     """the documented update, step by step"""
     u = u0.copy()
+    scale = float(np.max(np.abs(u)))
     for xi in xis:
+        scale = max(scale, float(np.max(np.abs(u))))
         var, dvar = var_of(u)
         if solver == "euler":
             u = u + dt * (a * u) + np.sqrt(var * dt / V) * xi + 0.5 * alpha * dt * dvar / V
@@ -310,22 +312,32 @@ def oracle(np, u0, V, a, var_of, alpha, solver, dt, xis, *, implicit_drift=False
             if implicit_drift:
                 start = start + 0.5 * alpha * dt * dvar / V
             u = start / (1 - a * dt)
+    if ret_scale:
+        return u, max(scale, float(np.max(np.abs(u))))
     return u
 
 
-def run_solve(eq, s0, case, dt, steps, *, deterministic=False):
+def iter_args(solver, scale=1.0):
+    """arguments that make the fixed-point iteration of the semi-implicit scheme converge to round-off:
+    its criterion is *absolute* (rms change < maxerror), so it is tied to the magnitude of the state"""
+    if solver != "implicit":
+        return {}
+    return {"maxerror": ITER["maxerror"] * max(1.0, scale), "maxiter": ITER["maxiter"]}
+
+
+def run_solve(eq, s0, case, dt, steps, *, deterministic=False, scale=1.0):
     solver = case["solver"]
     if deterministic and solver == "milstein":
         solver = "euler"  # Milstein refuses equations without a noise variance; its noise-free limit is Euler
-    extra = dict(ITER) if solver == "implicit" else {}
+    extra = iter_args(solver, scale)
     res, info = eq.solve(
         s0, t_range=steps * dt, dt=dt, solver=solver, backend=case["backend"], tracker=None, ret_info=True, **extra
     )
     return res.data.copy(), info["solver"]["steps"]
 
 
-def _close(np, got, exp, tol=TOL):
-    scale = max(1.0, float(np.max(np.abs(exp))))
+def _close(np, got, exp, tol=TOL, scale=1.0):
+    scale = max(1.0, scale, float(np.max(np.abs(exp))))
     err = float(np.max(np.abs(got - exp)))
     return err <= tol * scale, err
 
@@ -427,10 +439,16 @@ def sde_case(case):
                 eq = make_eq(L, case, gen)
                 if eq.rng is not gen:
                     bad("the equation does not own the generator it was given", dt, steps, seed)
+                scale = 1.0
+                if not vanishing:
+                    xis, ref_state = reference_draws(seed, steps)
+                    exp, scale = oracle(np, u0, V, a, var_of, alpha, solver, dt, xis, ret_scale=True)
+                    if solver == "implicit" and fd and alpha != 0:
+                        scale *= 10  # nothing is demanded there; leave room for the other reading
                 if numba_backend:
                     random_seed(seed)
                 try:
-                    got, nsteps = run_solve(eq, s0, case, dt, steps)
+                    got, nsteps = run_solve(eq, s0, case, dt, steps, scale=scale)
                     n += 1
                 except NotImplementedError as exc:
                     if "C13-harness" in str(exc):
@@ -458,10 +476,10 @@ def sde_case(case):
                     keys.append(key)
                     continue
 
-                xis, ref_state = reference_draws(seed, steps)
                 observe_only = solver == "implicit" and fd and alpha != 0
-                exp = oracle(np, u0, V, a, var_of, alpha, solver, dt, xis)
-                ok, err = _close(np, got, exp)
+                # (semi-implicit: converged to maxerror = 1e-15 * scale of the trajectory, hence that scale)
+                cscale = scale if solver == "implicit" else 1.0
+                ok, err = _close(np, got, exp, scale=cscale)
                 if observe_only:
                     # not demanded by the property: classify what the semi-implicit solver does
                     if ok:
@@ -470,7 +488,7 @@ def sde_case(case):
                         exp2 = oracle(np, u0, V, a, var_of, alpha, solver, dt, xis, implicit_drift=True)
                         outs.add(
                             f"semi-implicit + field-dependent variance + {interp}: "
-                            + ("drift added to the start state" if _close(np, got, exp2)[0] else "neither reading")
+                            + ("drift added to the start state" if _close(np, got, exp2, scale=cscale)[0] else "neither reading")
                         )
                 elif not ok:
                     bad("increment differs", dt, steps, seed, err=err, got=got.ravel()[:3].tolist(),
@@ -483,7 +501,11 @@ def sde_case(case):
                 # ---- components without variance evolve deterministically ---------------------------
                 if zero_rows is not None:
                     if solver == "implicit":
-                        zok = _close(np, got[zero_rows], det[zero_rows], 1e-14)[0]
+                        # same iterates as the deterministic run, but the (global, absolute) stopping test is met
+                        # after a different number of iterations: |difference| <= sqrt(size) * maxerror per step
+                        merr = iter_args(solver, scale)["maxerror"] + ITER["maxerror"]
+                        ztol = 1e-15 + steps * math.sqrt(got.size) * merr
+                        zok = float(np.max(np.abs(got[zero_rows] - det[zero_rows]))) <= ztol
                     else:
                         zok = np.array_equal(got[zero_rows], det[zero_rows])
                     if not zok:
@@ -500,7 +522,7 @@ def sde_case(case):
                     random_seed(seed)
                 else:
                     eq.rng = np.random.default_rng(seed)
-                again, _ = run_solve(eq, s0, case, dt, steps)
+                again, _ = run_solve(eq, s0, case, dt, steps, scale=scale)
                 n += 1
                 if not np.array_equal(again, got):
                     bad("two runs with the same seed are not bitwise equal", dt, steps, seed,
@@ -515,8 +537,8 @@ def sde_case(case):
                         eq2 = make_eq(L, case, seed)  # rng=<seed>
                     cur = s0
                     for _ in range(steps):
-                        extra = dict(ITER) if solver == "implicit" else {}
-                        cur = eq2.solve(cur, t_range=dt, dt=dt, solver=solver, backend=backend, tracker=None, **extra)
+                        cur = eq2.solve(cur, t_range=dt, dt=dt, solver=solver, backend=backend, tracker=None,
+                                        **iter_args(solver, scale))
                         n += 1
                     if not np.array_equal(cur.data, got):
                         bad("single-step solves in sequence (rng=<int seed>) differ from the multi-step run", dt, steps, seed,
@@ -698,8 +720,12 @@ def jit_case(case):
         return np.random.randn()
 
     eq = make_eq(L, case, np.random.default_rng(0))
-    kw = dict(ITER) if solver == "implicit" else {}
-    sol = SolverBase.from_name(solver, pde=eq, backend="numba", **kw)
+    scale = 1.0
+    for seed in SEEDS:
+        random_seed(seed)
+        scale = max(scale, oracle(np, u0, V, a, var_of, alpha, solver, dt, [draw() for _ in range(max(STEPS))],
+                                  ret_scale=True)[1])
+    sol = SolverBase.from_name(solver, pde=eq, backend="numba", **iter_args(solver, scale))
     stepper = sol.make_stepper(state=s0.copy(), dt=dt)
     viol, keys, n = [], [], 0
 
@@ -722,7 +748,7 @@ def jit_case(case):
                 n += 1
                 runs.append((s.data.copy(), probe()))
             got, nxt_got = runs[0]
-            ok, err = _close(np, got, exp)
+            ok, err = _close(np, got, exp, scale=scale if solver == "implicit" else 1.0)
             if not ok:
                 bad("increment differs", steps, seed, err=err)
             if nxt_got != nxt:
@@ -831,7 +857,8 @@ def main(run):
     run.assumptions += [
         "deterministic part du/dt = -0.5 u (per-field rates -0.5/-0.25/-0.75 for the PDE class); its Euler / fixed-point map is "
         "computed in closed form; predefined classes use the zero-noise step of the same solver (verified by C06)",
-        "semi-implicit scheme run with maxerror=1e-15, maxiter=1000 ('iterations converged')",
+        "semi-implicit scheme run with maxerror=1e-15*max(1, largest |u| of the reference trajectory), maxiter=1000 "
+        "('iterations converged'; the criterion of the solver is absolute)",
         "cell volumes recomputed from the grid specification (checked against grid.cell_volumes to 1e-13)",
         "field contents: uniform in +-[0.5, 1.5], derived from VERIF_SEED; the enumerated space does not depend on it",
         "tolerance 1e-12 relative to max(1, |u|): <= 12 flops per step, <= 3 steps, O(1..10) magnitudes",
